@@ -151,6 +151,34 @@ Record out := {
   o_cache : cache;
 }.
 
+(* StructOf/ArrayOf/TupleOf.export_value: check_type WITHOUT allow_optional (every member must be present), then the
+   members element-wise; leaves always export.  validate() accepts a nested struct that lacks optional members. *)
+Fixpoint exportable (d : dtype) (v : pyval) {struct d} : bool :=
+  match d with
+  | TArray elem _ _ =>
+      match v with PTuple l | PList l => forallb (exportable elem) l | _ => true end
+  | TTuple elems =>
+      match v with
+      | PTuple l | PList l =>
+          (fix go (ds : list dtype) (l : list pyval) : bool :=
+             match ds, l with d1 :: ds', x :: r => exportable d1 x && go ds' r | _, _ => true end) elems l
+      | _ => true
+      end
+  | TStruct members _ _ =>
+      match v with
+      | PDict kv =>
+          forallb (fun m : str * dtype => mem_str (fst m) (map fst kv)) members &&
+          forallb (fun p : str * pyval =>
+                     (fix find (ms : list (str * dtype)) : bool :=
+                        match ms with
+                        | [] => false
+                        | (n, d1) :: ms' => if str_eqb (fst p) n then exportable d1 (snd p) else find ms'
+                        end) members) kv
+      | _ => true
+      end
+  | _ => true
+  end.
+
 Section Handlers.
 Variable E : pyenv.
 Variable hook : nat -> pyval -> cache -> hres.            (* user check_<p> hooks: any function of value and module state *)
@@ -175,11 +203,31 @@ Fixpoint run_checks (cks : list check) (pn : str) (v : pyval) (c : cache) : list
       end
   end.
 
-(* announceUpdate(pname, value, validate=False): store, then updateCallback if exported *)
+(* announceUpdate(pname, value, validate=False): store, then updateCallback if exported.  The callback builds the update
+   message with pobj.export_value() BEFORE anything is sent: a stored value that does not export raises WrongTypeError
+   out of announceUpdate, after the cache was written *)
 Definition store (p : param) (x : pyval) (c : cache) (dl : list call) (hl : list (nat * pyval)) : out :=
-  {| o_reply := None; o_drv := dl; o_hooks := hl;
-     o_upd := match p_export p with Some _ => [(p_name p, x)] | None => [] end;
-     o_cache := setp c (p_name p) x |}.
+  match p_export p with
+  | Some _ =>
+      if exportable (p_dt p) x then
+        {| o_reply := None; o_drv := dl; o_hooks := hl; o_upd := [(p_name p, x)]; o_cache := setp c (p_name p) x |}
+      else
+        {| o_reply := Some WrongType; o_drv := dl; o_hooks := hl; o_upd := []; o_cache := setp c (p_name p) x |}
+  | None => {| o_reply := None; o_drv := dl; o_hooks := hl; o_upd := []; o_cache := setp c (p_name p) x |}
+  end.
+
+(* _setParameterValue: return pobj.export_value(), ... -- the reply is built from the cached value *)
+Definition reply_export (p : param) (o : out) : out :=
+  match o_reply o with
+  | Some _ => o
+  | None =>
+      match getp (o_cache o) (p_name p) with
+      | Some x => if exportable (p_dt p) x then o
+                  else {| o_reply := Some WrongType; o_drv := o_drv o; o_hooks := o_hooks o; o_upd := o_upd o;
+                          o_cache := o_cache o |}
+      | None => o
+      end
+  end.
 
 (* HasAccessibles.__init_subclass__.new_wfunc *)
 Definition write_wrapper (p : param) (v : pyval) (c : cache) (d : drv) : out :=
@@ -217,7 +265,7 @@ Definition handle_change (md : mdesc) (c : cache) (rq : request) : out :=
       let prev := match getp c (p_name p) with Some x => x | None => PNone end in
       match wire E (p_dt p) (rq_data rq) prev with
       | Err e => fail c (of_exc e) [] []
-      | Ok v => write_wrapper p v c (rq_drv rq)
+      | Ok v => reply_export p (write_wrapper p v c (rq_drv rq))
       end
   | _ => fail c (ESecop NoSuchParameter) [] []
   end.
